@@ -646,14 +646,78 @@ impl Check for C15Check {
         ]
     }
     fn shard(&self, cx: &mut Ctx) {
+        // nearly pristine screens: every chain of up to 4 (thorough: 5) operations that touch no
+        // cell - modes, save / restore, shifts, rendition, tab stops, title - from a new screen,
+        // then RIS (an implementation may not take "looks untouched" for "is untouched")
+        if cx.begin_group("chains from a pristine screen") {
+            let alpha: Vec<Op> = vec![
+                Op::Feed("\x1b[?25l".into()),
+                Op::Feed("\x1b[?25h".into()),
+                Op::Feed("\x1b7".into()),
+                Op::Feed("\x1b8".into()),
+                Op::Feed("\x1b[?6h".into()),
+                Op::Feed("\x1b[?7l".into()),
+                Op::Feed("\x1b[?5h".into()),
+                Op::Feed("\x1b[4h".into()),
+                Op::Feed("\x0e".into()),
+                Op::Feed("\x1b)B".into()),
+                Op::Feed("\x1b[1;31m".into()),
+                Op::Feed("\x1b[m".into()),
+                Op::Feed("\x1bH".into()),
+                Op::Feed("\x1b[2;3r".into()),
+                Op::Feed("\x1b]2;t\x07".into()),
+                Op::Feed("\x1b[2;2H".into()),
+                Op::ClearDirty,
+            ];
+            let maxlen = if cx.quick() { 4 } else { 5 };
+            let mut idx = vec![0usize; maxlen];
+            let n = alpha.len();
+            let mut k = 0u64;
+            let mut complete = true;
+            'chains: for len in 1..=maxlen {
+                for i in idx.iter_mut() {
+                    *i = 0;
+                }
+                loop {
+                    k += 1;
+                    if cx.mine(k) {
+                        let h: Vec<Op> = idx[..len].iter().map(|i| alpha[*i].clone()).collect();
+                        c15_run(cx, 6, 4, &h, k % 2 == 0, &[Op::Feed("x".into())], true);
+                        if k % 4096 == 0 && (cx.used() > 0.4 || cx.out_of_time()) {
+                            complete = false;
+                            break 'chains;
+                        }
+                    }
+                    // next
+                    let mut pos = 0;
+                    loop {
+                        if pos == len {
+                            break;
+                        }
+                        idx[pos] += 1;
+                        if idx[pos] < n {
+                            break;
+                        }
+                        idx[pos] = 0;
+                        pos += 1;
+                    }
+                    if pos == len {
+                        break;
+                    }
+                }
+            }
+            if complete {
+                cx.stats.exhaustive_parts.insert(format!("every chain of up to {} operations over {} cell-free operations (modes, save / restore, shifts, rendition, tab stop, region, title, cursor move, embedder clearing dirty) from a new 6x4 screen, then RIS", maxlen, n));
+            }
+        }
         while !cx.out_of_time() {
             let (mut c, mut l) = gen::pick_geom(&mut cx.rng, cx.tier);
             let mut rng = cx.rng.fork(11);
             // one case in twelve: a screen at least 130 columns wide with the tab stops churned and
             // walked before the reset, and walked again after it
-            let tab_case = rng.below(12) == 0;
+            let tab_case = rng.below(8) == 0;
             if tab_case {
-                c = rng.range(130, 140);
+                c = if rng.bool() { rng.range(130, 140) } else { 8 * rng.range(1, 6) };
                 l = rng.range(1, 3);
             }
             if !cx.begin_group(&format!("ris {}x{}", c, l)) {
@@ -689,7 +753,11 @@ impl Check for C15Check {
                         _ => rng.range(1, c),
                     };
                     h.push(Op::Api(Call::CursorToColumn(Some(x))));
-                    h.push(Op::Api(if rng.below(3) == 0 { Call::SetTabStop } else { Call::ClearTabStop(Some(0)) }));
+                    if x == c && rng.bool() {
+                        // into the pending-wrap column first
+                        h.push(Op::Api(Call::Draw("w".into())));
+                    }
+                    h.push(Op::Api(if rng.below(2) == 0 { Call::SetTabStop } else { Call::ClearTabStop(Some(0)) }));
                     if rng.below(3) == 0 {
                         h.push(Op::Api(Call::CarriageReturn));
                         for _ in 0..1 + rng.below(17) {
